@@ -344,6 +344,14 @@ func (w *arWorld) boundaryArg(t abi.Type, old interface{}) interface{} {
 	R := w.r.c.R
 	switch t.T {
 	case abi.UintTy, abi.IntTy:
+		if R.Intn(5) == 0 { // a whole multiple of a unit whose quotient wraps into the valid range when it is narrowed (s_autoreceive_sweep.go)
+			fam := arAlignedFamily(arBigOf(old), false)
+			for k := 0; k < 8; k++ {
+				if x, ok := arIntArg(t, fam[R.Intn(len(fam))]); ok {
+					return x
+				}
+			}
+		}
 		b := arBoundaryInts[R.Intn(len(arBoundaryInts))]
 		if t.Kind == reflect.Ptr {
 			if b.BitLen() > 256 {
